@@ -532,6 +532,16 @@ func (s *StoresInfo) GetStore(storeID uint64) *StoreInfo {
 
 // SetStore sets a StoreInfo with storeID.
 func (s *StoresInfo) SetStore(store *StoreInfo) {
+	// The pause flag belongs to PauseLeaderTransfer / ResumeLeaderTransfer: a store
+	// object that was cloned before one of them ran (store heartbeat, PutStore,
+	// RemoveStore ... are read-clone-put) must not undo it.
+	if old, ok := s.stores[store.GetID()]; ok && old.pauseLeaderTransfer != store.pauseLeaderTransfer {
+		if old.pauseLeaderTransfer {
+			store = store.Clone(PauseLeaderTransfer())
+		} else {
+			store = store.Clone(ResumeLeaderTransfer())
+		}
+	}
 	s.stores[store.GetID()] = store
 }
 
